@@ -16,6 +16,13 @@ def build(desc, cache):
         cls = type(desc["name"], (object,), {"__module__": desc["module"]})
         cache[("cls", desc["id"])] = cls
         ob = implementedBy(cls)
+    elif kind == "implold":
+        # an old-style declaration in the class body, materialised by the first implementedBy()
+        marker = InterfaceClass("IOld%d" % desc["id"], (Interface,), {}, __module__="old")
+        cls = type(desc["name"], (object,), {"__module__": desc["module"],
+                                             "__implemented__": marker if desc["id"] % 2 else (marker,)})
+        cache[("cls", desc["id"])] = cls
+        ob = implementedBy(cls)
     elif kind == "none":
         ob = None
     elif kind == "named":
@@ -58,7 +65,7 @@ def row(a, b):
 
 
 def key(ob, desc):
-    if desc["kind"] in ("iface", "impl", "named"):
+    if desc["kind"] in ("iface", "impl", "implold", "named"):
         return [ob.__name__, ob.__module__]
     return ["", ""]
 
